@@ -15,10 +15,13 @@
        EpsilonGreedy: the leaf policy holds the mean of the leaf's rewards (0 for an empty leaf); the reported value is that mean unless
        the exploration draw (one uniform number from the generator the leaf policies use) falls below epsilon, in which case it is one
        more uniform draw - so with epsilon = 0 exactly the mean of the leaf.
+     * WHOLE HISTORY (TreeWhole.v): after fit followed by any number of partial_fit calls (the trees are fitted once per arm and only applied
+       afterwards: one leaf function), the rewards filed for arm a under leaf lf are EXACTLY the (binarizer-converted) rewards of the observations
+       of the whole history since that fit whose decision is a and whose context falls into leaf lf, in arrival order - a filter of the history.
     Findings D6 / D7 concern the leaf policies' binarizer and generator;
     finding D19: Clusters.remove_arm does not purge the stored history (a re-added arm reports 0 until the next training call). *)
 From Coq Require Import List ZArith Bool Arith QArith Qcanon Permutation.
-From MW Require Import Num Assoc AssocFacts Rng Par CF CFInv CFClean CFForget CFSpec Matrix Lin Warm WarmInv Nbr NbrFacts NbrIndep LshFacts Clu Tree CellFacts Mab FacadeCF FacadeArms MoreFacts NumLaws CFAlg Sim Extra QcInst OrderFacts ExpIrrel LinInv FacadeLin LpInv NbrInv CluTreeInv FacadeAll ToyFacts C09All C10All LinForget LinSim MatrixFacts GaussJordan LinSpec NbrIndepGen CluIndep C17Lin WarmIdem C14More LshScale TreeLeaf Rename PopSpec CopyFacts StatFacts CluBatch LinWarm.
+From MW Require Import Num Assoc AssocFacts Rng Par CF CFInv CFClean CFForget CFSpec Matrix Lin Warm WarmInv Nbr NbrFacts NbrIndep LshFacts Clu Tree CellFacts Mab FacadeCF FacadeArms MoreFacts NumLaws CFAlg Sim Extra QcInst OrderFacts ExpIrrel LinInv FacadeLin LpInv NbrInv CluTreeInv FacadeAll ToyFacts C09All C10All LinForget LinSim MatrixFacts GaussJordan LinSpec NbrIndepGen CluIndep C17Lin WarmIdem C14More LshScale TreeLeaf Rename PopSpec CopyFacts StatFacts CluBatch LinWarm TreeWhole RowOrder.
 Import ListNotations.
 
 Theorem C12_cluster_policy_trained_on_rows_with_its_label :
@@ -140,5 +143,17 @@ Theorem C12_tree_greedy_reports_the_leaf_mean_or_an_exploration_draw :
    else (spec_mean N [rewards], g1)).
 Proof. exact @leaf_expectation_greedy. Qed.
 Print Assumptions C12_tree_greedy_reports_the_leaf_mean_or_an_exploration_draw.
+
+Theorem C12_tree_cells_hold_the_filtered_history :
+  forall (R A : Type) (aeqb : A -> A -> bool),
+  (forall x y : A, aeqb x y = true <-> x = y) ->
+  forall (s : (@tree R A)) (leaf : A -> list R -> nat) (b0 : list (A * R * list R))
+    (h : list (list (A * R * list R))) (a : A) (lf : nat),
+  NoDup (t_arms s) ->
+  In a (t_arms s) ->
+  leaves_at aeqb (tree_partials aeqb (tree_fit aeqb s leaf (ds_of b0) (rs_of b0) (cx_of b0)) leaf h) a
+    lf = cell aeqb leaf a lf (map (conv s) (b0 ++ concat h)).
+Proof. exact @tree_cells_hold_the_filtered_history. Qed.
+Print Assumptions C12_tree_cells_hold_the_filtered_history.
 
 
